@@ -180,7 +180,7 @@ Definition e_scripts (t : tid) : list op :=
 Definition e_sched : list tid :=
   [0;0;0;0; 1;1;1;1; 0;1; 1;0; 0;0;0; 1;1;1; 1;1;1; 0;0;0; 0;1]%nat.
 
-Lemma e_scripts_fin : forall t, (2 <= t)%nat -> e_scripts t = [].
+Example e_scripts_fin : forall t, (2 <= t)%nat -> e_scripts t = [].
 Proof. intros [|[|t]] H; [inversion H|inversion H; match goal with H' : (_ <= 0)%nat |- _ => inversion H' end|reflexivity]. Qed.
 
 Example C05_two_threads_find_class_empty :
@@ -219,7 +219,7 @@ Definition e2_scripts (t : tid) : list op :=
 Definition e2_sched : list tid :=
   (e_sched ++ [1;1; 0;0;0; 1;1; 0;0;0;0; 1] ++ [0;0;0;0;0] ++ [1;1;1;1;1;1;1] ++ [1;1;1;1;1;1])%nat.
 
-Lemma e2_scripts_fin : forall t, (2 <= t)%nat -> e2_scripts t = [].
+Example e2_scripts_fin : forall t, (2 <= t)%nat -> e2_scripts t = [].
 Proof. intros [|[|t]] H; [inversion H|inversion H; match goal with H' : (_ <= 0)%nat |- _ => inversion H' end|reflexivity]. Qed.
 
 Example C05_contended_run :
